@@ -31,6 +31,9 @@ def adjudicate(chk, cfg, bad, run):
                 x.get("op"), x.get("outcome"), x.get("diff"), (x.get("vector") or {}).get("tag"), x.get("msg", ""))
             chk.violation(x, what)
         else:
+            if "SPEC" in v["violated"]:
+                log("DEVIATION in behaviour beyond the listed properties (tag %s): diff=%s" % (
+                    (x.get("vector") or {}).get("tag"), x.get("diff")))
             chk.notes.append("vector deviates from the model without violating %s (violated: %s, tag %s)" % (
                 chk.prop, v["violated"], (x.get("vector") or {}).get("tag")))
     if len(bad) > 400:
